@@ -567,6 +567,16 @@ def opaque_step_helpers(ctx: Ctx, f: FuncInfo) -> list[ast.Call]:
         for c in body_walk(f.node):
             if isinstance(c, ast.Call) and norm(c.func).split(".")[-1] in ("accumulate", "reduce", "map", "starmap", "iter", "partial", "filter", "takewhile", "dropwhile") and any(isinstance(a, ast.Name) and a.id == nm for a in list(c.args) + [k.value for k in c.keywords]):
                 out.append(c)
+    # a stop-condition consult wrapped in a lambda and handed to a call (a table of lazily consulted checks): when, in which
+    # order and whether it is consulted is decided by the callee
+    for c in body_walk(f.node):
+        if not isinstance(c, ast.Call):
+            continue
+        for a in list(c.args) + [k.value for k in c.keywords]:
+            lams = [x for x in ast.walk(a) if isinstance(x, ast.Lambda)]
+            if any(isinstance(y, ast.Call) and isinstance(y.func, ast.Attribute) and y.func.attr in ("_gsc", "_lsc") for l_ in lams for y in ast.walk(l_.body)):
+                out.append(c)
+                break
     return out
 
 
